@@ -179,6 +179,11 @@ def gen_body(rnd, adapter, wellformed):
     else:  # go: text
         sep = rnd.choice(['\n', '\n', '\r\n'])
         lines = list(vs)
+        if rnd.random() < 0.25:
+            # a long listing as busy modules have it: 25-80 lines in no particular order, a few of them not versions
+            lines = ['v%d.%d.%d' % (rnd.randrange(3), rnd.randrange(30), rnd.randrange(12)) for _ in range(rnd.choice([25, 40, 80]))]
+            for _ in range(rnd.randrange(0, 5)):
+                lines.insert(rnd.randrange(len(lines) + 1), rnd.choice(['v1.5', 'foo', 'v2', 'v0.0.0-20210101000000-abcdefabcdef', 'v1.2.3-rc.1']))
         if rnd.random() < 0.3:
             lines.insert(rnd.randrange(len(lines) + 1), '')
         text = sep.join(lines) + (sep if rnd.random() < 0.7 else '')
